@@ -165,6 +165,9 @@ pub struct World {
     /// E2 only: steps whose command completed around the moment n2 gave up on a failed
     /// build; whether n2 still recorded them cannot be known from outside
     pub uncertain: BTreeSet<String>,
+    /// files that were ever given an epoch timestamp: never stamped again (a second identical stamp
+    /// after a content change would be a content change without an mtime change, outside the assumptions)
+    pub stamped: BTreeSet<String>,
 }
 
 /// Special ticks: a file stamped exactly at, or before, the Unix epoch (reproducible-build tooling
@@ -210,6 +213,7 @@ impl World {
             ropts: RenderOpts::default(),
             texts: BTreeMap::new(),
             uncertain: BTreeSet::new(),
+            stamped: BTreeSet::new(),
         }
     }
 
@@ -233,6 +237,9 @@ impl World {
 
     /// `touch -d @0 name` (or a day earlier)
     pub fn stamp_epoch(&mut self, name: &str, before: bool) {
+        if !self.stamped.insert(name.to_string()) {
+            return;
+        }
         if let Some(old) = self.st.disk.get(name).copied() {
             let t = if before { TICK_BEFORE_EPOCH } else { TICK_EPOCH };
             touch_real(&self.dir, name, t).expect("touch");
